@@ -135,6 +135,7 @@ func (m *runtimeContextManager) PushContext(ctx RuntimeContextDef) {
 		m.weakRefPool = parent.weakRefPool
 		m.gcPolicy = ShareGCPolicy
 	}
+	verifCtx("push", m, &ctx, 0, 0)
 }
 
 func (m *runtimeContextManager) GCPolicy() GCPolicy {
@@ -153,12 +154,14 @@ func (m *runtimeContextManager) PopContext() RuntimeContext {
 	if mCopy.status == StatusLive {
 		mCopy.status = StatusDone
 	}
+	verifCtx("popped", &mCopy, nil, 0, 0)
 	m.parent.RequireCPU(m.usedResources.Cpu)
 	m.parent.RequireMem(m.usedResources.Memory)
 	*m = *m.parent
 	if m.trackTime {
 		m.updateTimeUsed()
 	}
+	verifCtx("pop", m, nil, 0, 0)
 	return &mCopy
 }
 
@@ -172,6 +175,9 @@ func (m *runtimeContextManager) RequireCPU(cpuAmount uint64) {
 
 //go:noinline
 func (m *runtimeContextManager) requireCPU(cpuAmount uint64) {
+	if m.status != StatusLive {
+		verifCtx("cpu.dead", m, nil, cpuAmount, 0)
+	}
 	if m.stopLevel&HardStop != 0 {
 		m.KillContext()
 	}
@@ -182,6 +188,7 @@ func (m *runtimeContextManager) requireCPU(cpuAmount uint64) {
 		cpuUsed = ^uint64(0)
 	}
 	if atLimit(cpuUsed, m.hardLimits.Cpu) {
+		verifCtx("cpu.limit", m, nil, cpuAmount, 0)
 		m.TerminateContext("CPU limit of %d exceeded", m.hardLimits.Cpu)
 	}
 	if m.trackTime && m.nextCpuThreshold <= cpuUsed {
@@ -205,6 +212,9 @@ func (m *runtimeContextManager) RequireMem(memAmount uint64) {
 
 //go:noinline
 func (m *runtimeContextManager) requireMem(memAmount uint64) {
+	if m.status != StatusLive {
+		verifCtx("mem.dead", m, nil, memAmount, 0)
+	}
 	if m.stopLevel&HardStop != 0 {
 		m.KillContext()
 	}
@@ -214,6 +224,7 @@ func (m *runtimeContextManager) requireMem(memAmount uint64) {
 		memUsed = ^uint64(0)
 	}
 	if atLimit(memUsed, m.hardLimits.Memory) {
+		verifCtx("mem.limit", m, nil, memAmount, 0)
 		m.TerminateContext("memory limit of %d exceeded", m.hardLimits.Memory)
 	}
 	m.usedResources.Memory = memUsed
@@ -309,6 +320,7 @@ func (m *runtimeContextManager) TerminateContext(format string, args ...interfac
 		return
 	}
 	m.status = StatusKilled
+	verifCtx("kill", m, nil, 0, 0)
 	panic(ContextTerminationError{
 		message: fmt.Sprintf(format, args...),
 	})
